@@ -244,6 +244,8 @@ Unfrozen(S, op, ord) ==
     [] op.name = "convert_labels_to_integers" -> {Ok(ConvertLabels(S))}
     [] op.name = "set_net_attr" -> {Ok([S EXCEPT !.gattr = Put(@, op.k, op.v)])}
     [] op.name = "freeze" -> {Ok([S EXCEPT !.frozen = TRUE])}
+    \* the history continues on a copy / constructor copy / pickle while the original is edited behind its back
+    [] op.name = "fork" -> {Ok(IF op.s1 = "constructor" THEN [S EXCEPT !.uid = 0] ELSE S)}  \* a rebuilt network starts from the ids it holds
 
 Outcomes(S, op, ord) ==
   IF S.frozen /\ op.name \in StructuralOps
